@@ -219,6 +219,9 @@ def run(ctx):
     ctx.exhaustive("lattice-grid", lattice_grid(), body,
                    "all 3-vertex paths on a 5x5 lattice x 3 tolerances + a family of 4-vertex lattice paths")
     ctx.given("generated", cases(), body, quick=6000, thorough=800000)
+    if ctx.thorough and ctx.shard == 0:
+        from pbt.fuzz import driver
+        driver.run_stage(ctx, "c09_reduce", runs=100000, max_len=4096)
 
 
 def replay(ctx, part, case):
